@@ -84,6 +84,13 @@ func genUniverse(c *simrt.Choices, g genCfg) *Universe {
 		for i := 0; i < nf; i++ {
 			u.Files[path.Join(p, fmt.Sprintf("s%d.txt", i))] = fmt.Sprintf("%s-s%d-%s", p, i, strings.Repeat("x", c.Choose(6, "srclen")))
 		}
+		if chance(c, 1, 3, "prefix-src") {
+			// names that have an excludable path as a plain string prefix without lying below it
+			u.Files[path.Join(p, "s1.txt.orig.txt")] = "orig:" + p
+			if chance(c, 1, 2, "prefix-src2") {
+				u.Files[path.Join(p, "srcx.txt")] = "srcx:" + p
+			}
+		}
 		if chance(c, 1, 3, "subdir-src") {
 			u.Files[path.Join(p, "src", "u0.txt")] = "u0:" + p
 			if chance(c, 1, 2, "subdir-src2") {
@@ -131,8 +138,8 @@ func genUniverse(c *simrt.Choices, g genCfg) *Universe {
 		case 4:
 			s.Inputs = nil
 		case 5:
-			s.Inputs = []string{"*.txt"}
-			s.Excludes = []string{"s1.txt"}
+			s.Inputs = []string{pick(c, "excl-inputs", "*.txt", "**/*.txt")}
+			s.Excludes = [][]string{{"s1.txt"}, {"src/**"}, {"s1.txt", "src/**"}}[c.Choose(3, "excl-kind")]
 		}
 		// dependencies on earlier targets
 		if len(order) > 0 {
@@ -431,7 +438,7 @@ func genEdit(c *simrt.Choices, u *Universe, g genCfg, snapshots []*Universe) (*U
 		if len(s.Excludes) > 0 {
 			s.Excludes = nil
 		} else if len(s.Inputs) > 0 && isGlob(s.Inputs[0]) {
-			s.Excludes = []string{"s1.txt"}
+			s.Excludes = [][]string{{"s1.txt"}, {"src/**"}}[c.Choose(2, "excl-kind")]
 		} else {
 			s.Ver++
 			ed.Op = "command"
